@@ -390,9 +390,68 @@ fn run_big(rep: &Mutex<Report>, counts: &Counts, thorough: bool) {
     }
 }
 
+// ----- many simultaneously active edges / deep nesting (judged by triangle count and exact doubled area)
+
+/// (polygons, depth of each polygon): a valid nested set by construction
+fn many_active_set(r: &mut Rng, kind: usize) -> Vec<(Vec<[f64; 2]>, usize)> {
+    let mut out: Vec<(Vec<[f64; 2]>, usize)> = vec![];
+    let sq = |x0: i64, y0: i64, x1: i64, y1: i64, ccw: bool, rot: usize| -> Vec<[f64; 2]> { rect(x0, y0, x1, y1, ccw, rot) };
+    match kind {
+        // m x m grid of small squares / triangles: up to 2m edges cross the sweep line
+        0 => { let m = r.range(20, 70) as i64; for i in 0..m { for j in 0..m { let (x, y) = (4 * i + (j % 3), 4 * j); if r.chance(0.5) { out.push((sq(x, y, x + 2, y + 2, r.chance(0.5), r.below(4) as usize), 0)); } else { let mut t = vec![[x as f64, y as f64], [(x + 2) as f64, (y + 1) as f64], [(x + 1) as f64, (y + 2) as f64]]; if r.chance(0.5) { t.reverse(); } out.push((t, 0)); } } } }
+        // nested frames to depth d, each level holding several disjoint children side by side
+        1 => { fn go(r: &mut Rng, x0: i64, y0: i64, x1: i64, y1: i64, depth: usize, maxd: usize, out: &mut Vec<(Vec<[f64; 2]>, usize)>) {
+                   out.push((rect(x0, y0, x1, y1, r.chance(0.5), r.below(4) as usize), depth));
+                   if depth >= maxd || x1 - x0 < 8 || y1 - y0 < 8 { return; }
+                   let k = 1 + r.below(3) as i64; let w = (x1 - x0 - 2) / k;
+                   if w < 4 { return; }
+                   for c in 0..k { go(r, x0 + 1 + c * w + 1, y0 + 2, x0 + 1 + (c + 1) * w - 1, y1 - 2, depth + 1, maxd, out); }
+               }
+               let d = r.range(5, 14) as usize; go(r, 0, 0, 2000, 120, 0, d, &mut out); }
+        // a comb with many teeth (one polygon, 2*teeth active edges) with a small island in every second gap
+        _ => { let teeth = r.range(60, 300) as i64; let mut v: Vec<[f64; 2]> = vec![[0.0, 0.0], [(4 * teeth) as f64, 0.0]];
+               for t in (0..teeth).rev() { let x = 4 * t; v.push([(x + 3) as f64, 10.0 + (t % 5) as f64]); v.push([(x + 3) as f64, 2.0]); v.push([(x + 1) as f64, 2.0]); v.push([(x + 1) as f64, 10.0 + ((t + 2) % 5) as f64]); }
+               // teeth are [x+1, x+3] x [2, top]; gaps in between stay outside; base strip [0,4*teeth] x [0,2]
+               if r.chance(0.5) { v.reverse(); }
+               out.push((v, 0)); }
+    }
+    out
+}
+
+fn run_many_active(rep: &Mutex<Report>, counts: &Counts, rng: &mut Rng, thorough: bool, model_reqs: &Mutex<Vec<(String, String, String)>>) {
+    for i in 0..(if thorough { 120 } else { 24 }) {
+        let kind = i % 3;
+        let mut set = many_active_set(rng, kind);
+        // random polygon order (the input order must not matter)
+        for j in (1..set.len()).rev() { let k = rng.below(j as u64 + 1) as usize; set.swap(j, k); }
+        let polys: Vec<Vec<[f64; 2]>> = set.iter().map(|p| p.0.clone()).collect();
+        let q = |x: f64| x as i128;
+        let mut want_tris: i128 = 0; let mut want_a2: i128 = 0;
+        for (p, d) in &set {
+            let n = p.len();
+            let shoe: i128 = (0..n).map(|i| { let (a, b) = (p[i], p[(i + 1) % n]); q(a[0]) * q(b[1]) - q(a[1]) * q(b[0]) }).sum();
+            if d % 2 == 0 { want_tris += n as i128 - 2; want_a2 += shoe.abs(); } else { want_tris += n as i128 + 2; want_a2 -= shoe.abs(); }
+        }
+        let out = run_impl(&polys);
+        let input = format!("tri-many kind={} polygons={} vertices={} (seeded; replay with the same VERIF_SEED)", kind, polys.len(), polys.iter().map(|p| p.len()).sum::<usize>());
+        { let mut r = rep.lock().unwrap(); r.cases += 1; r.nontrivial += 1; r.count(&format!("gen:many-active-{}", kind)); r.count(&format!("impl:{}", out.class())); }
+        counts.valid.fetch_add(1, Ordering::Relaxed);
+        match &out {
+            TOut::Ok(ts) => {
+                let a2: i128 = ts.iter().map(|t| ((q(t[1][0]) - q(t[0][0])) * (q(t[2][1]) - q(t[0][1])) - (q(t[1][1]) - q(t[0][1])) * (q(t[2][0]) - q(t[0][0]))).abs()).sum();
+                if ts.len() as i128 == want_tris && a2 == want_a2 { counts.valid_ok.fetch_add(1, Ordering::Relaxed); }
+                else { counts.bad_tiling.fetch_add(1, Ordering::Relaxed); rep.lock().unwrap().finding("oracle", &["C03"], "not-a-tiling", if polys.iter().map(|p| p.len()).sum::<usize>() < 400 { format!("tri {}", text(&polys)) } else { input.clone() }, format!("{} triangles, doubled area {} (want {}, {})", ts.len(), a2, want_tris, want_a2)); }
+            }
+            TOut::Panic(m) => { counts.panics.fetch_add(1, Ordering::Relaxed); rep.lock().unwrap().finding("oracle", &["C15"], &format!("panic-{}", panic_class(m)), input.clone(), m.clone()); }
+            other => { counts.valid_rejected.fetch_add(1, Ordering::Relaxed); rep.lock().unwrap().finding("oracle", &["C04"], "valid-rejected", if polys.iter().map(|p| p.len()).sum::<usize>() < 400 { format!("tri {}", text(&polys)) } else { input.clone() }, other.wire()); }
+        }
+        if polys.iter().map(|p| p.len()).sum::<usize>() <= 1500 && rng.chance(0.5) { model_reqs.lock().unwrap().push((request(&polys), out.wire(), text(&polys))); }
+    }
+}
+
 pub fn run(o: &Opts) -> Report {
     let rep = Mutex::new(Report::new("tri"));
-    rep.lock().unwrap().rule = "EXHAUSTIVE: every vertex sequence (repeats, collinear, self-intersecting included) of 3..N points on the 4x4 integer lattice as a single polygon (N=6: 17.9M sequences, both tiers); plus structured valid sets (L, U, plus, T, comb, spiral, star, zigzag, rectangles with holes, holes with islands to depth 4, side-by-side components) under all dihedral maps, integer scalings/shears/translations, reversals, start-vertex rotations and polygon permutations; random multi-polygon soups on lattices up to 10x10; star-shaped polygons; stacked bands of 5..10 small polygons on a 12-wide lattice (up to 20 simultaneously active edges, many shared abscissae); exact axis-wise affine images v*2^e + t (e in -60..60 per axis incl. aspect ratios 2^45..2^120, translations up to 2^45 steps; the answer is mapped back exactly and judged on the lattice); zeros written as -0.0; NaN/inf/-0/subnormal/1e300 coordinates; empty and short inputs; single polygons of 3 000..40 000 (thorough: 120 000) vertices, each in a child process on a 2 MiB stack: a reflex parabola cap (one fan of n-2 triangles), the region under a sine period, a zig-zag strip, judged by triangle count and exact doubled area; fixed overflow inputs (known findings). Non-trivial = passes input validation (>= 3 distinct finite vertices per polygon); distinct by construction of the enumeration".into();
+    rep.lock().unwrap().rule = "EXHAUSTIVE: every vertex sequence (repeats, collinear, self-intersecting included) of 3..N points on the 4x4 integer lattice as a single polygon (N=6: 17.9M sequences, both tiers); plus structured valid sets (L, U, plus, T, comb, spiral, star, zigzag, rectangles with holes, holes with islands to depth 4, side-by-side components) under all dihedral maps, integer scalings/shears/translations, reversals, start-vertex rotations and polygon permutations; random multi-polygon soups on lattices up to 10x10; star-shaped polygons; stacked bands of 5..10 small polygons on a 12-wide lattice (up to 20 simultaneously active edges, many shared abscissae); exact axis-wise affine images v*2^e + t (e in -60..60 per axis incl. aspect ratios 2^45..2^120, translations up to 2^45 steps; the answer is mapped back exactly and judged on the lattice); zeros written as -0.0; NaN/inf/-0/subnormal/1e300 coordinates; empty and short inputs; single polygons of 3 000..40 000 (thorough: 120 000) vertices, each in a child process on a 2 MiB stack: a reflex parabola cap (one fan of n-2 triangles), the region under a sine period, a zig-zag strip, judged by triangle count and exact doubled area; grids of 400..4900 small polygons (up to 140 simultaneously active edges), nested frames to depth 14 with several children per level, combs with up to 300 teeth, in random polygon order, judged the same way; fixed overflow inputs (known findings). Non-trivial = passes input validation (>= 3 distinct finite vertices per polygon); distinct by construction of the enumeration".into();
     let counts = Counts::default();
     if let Some(t) = &o.replay {
         // single input: `cavh tri --replay "[[[x,y],...],...]"` prints the implementation's answer and judges it
@@ -539,6 +598,7 @@ pub fn run(o: &Opts) -> Report {
         if rng.chance(0.1) { model_reqs.lock().unwrap().push((request(&polys), out.wire(), text(&polys))); }
     }
     run_big(&rep, &counts, o.thorough);
+    run_many_active(&rep, &counts, &mut rng, o.thorough, &model_reqs);
     extra.push(("empty", vec![]));
     extra.push(("empty-poly", vec![vec![]]));
     for (name, polys) in &extra {
